@@ -465,7 +465,10 @@ func (r *runner) setup(plans []*plan.Plan, names []string, imports []int) {
 			r0, r1 := plan.Host2(int32(uint32(stack[0])))
 			stack[0], stack[1] = uint64(uint32(r0)), uint64(uint32(r1))
 		}), []api.ValueType{api.ValueTypeI32}, []api.ValueType{api.ValueTypeI32, api.ValueTypeI32}).
-		WithName("h2").Export("h2").Instantiate(cctx)
+		WithName("h2").Export("h2").
+		NewFunctionBuilder().
+		WithGoModuleFunction(api.GoModuleFunc(func(context.Context, api.Module, []uint64) {}), []api.ValueType{api.ValueTypeI32}, []api.ValueType{api.ValueTypeI32}).
+		WithName("recprobe").Export("recprobe").Instantiate(cctx)
 	if err != nil {
 		panic(err)
 	}
